@@ -13,18 +13,16 @@ Lemma limits_ordered : region_limit_min <= region_limit0. Proof. discriminate. Q
 Lemma batch_size_pos : 1 <= batch_size. Proof. discriminate. Qed.
 
 (* ---------- generic consequences of page_loop_spec ---------- *)
-Lemma todo_from_zero {V} (m : amap V) : sorted_from 0 m -> todo m 0 = filter (fun p => fst p <? max_id) m.
-Proof. intros H. unfold todo. apply (filter_all_from 0 max_id m 0 H). lia. Qed.
+Lemma todo_from_zero {V} (m : amap V) : sorted_from 0 m -> todo m 0 = filter (fun p => fst p <? range_end) m.
+Proof. intros H. unfold todo. apply (filter_all_from 0 range_end m 0 H). lia. Qed.
 
-Lemma filter_all_below {V} (m : amap V) : (forall k v, In (k, v) m -> k <> max_id) -> sorted_from 0 m ->
-  (forall k v, In (k, v) m -> k < two64) ->
-  filter (fun p => fst p <? max_id) m = m.
+Lemma filter_all_below {V} (m : amap V) : (forall k v, In (k, v) m -> k < two64) ->
+  filter (fun p => fst p <? range_end) m = m.
 Proof.
-  intros H _ Hb. induction m as [|[k v] r IH]; cbn [filter]; [reflexivity|]. cbn [fst].
-  assert (k <> max_id) by (apply (H k v); left; reflexivity).
+  intros Hb. induction m as [|[k v] r IH]; cbn [filter]; [reflexivity|]. cbn [fst].
   assert (k < two64) by (apply (Hb k v); left; reflexivity).
-  replace (k <? max_id) with true by (symmetry; unfold max_id in *; lia).
-  f_equal. apply IH; intros k' v' Hin; [apply (H k' v')|apply (Hb k' v')]; right; exact Hin.
+  replace (k <? range_end) with true by (symmetry; unfold range_end; lia).
+  f_equal. apply IH; intros k' v' Hin; apply (Hb k' v'); right; exact Hin.
 Qed.
 
 (* a LoadRange that never fails never makes the loop give up *)
@@ -34,8 +32,8 @@ Lemma never_fails_not_failed {V C} (cb : C -> Z * V -> C * list Z) min_limit :
 Proof.
   induction fuel as [|fuel IH]; intros m next limit call c acc; cbn [page_loop]; [discriminate|].
   unfold never_fails at 1.
-  destruct (fold_left (step_item cb) (range m next max_id limit) (m, c, next)) as [[m' c'] next'].
-  destruct (Z.of_nat (length (range m next max_id limit)) <? limit); [discriminate|apply IH].
+  destruct (fold_left (step_item cb) (range m next range_end limit) (m, c, next)) as [[m' c'] next'].
+  destruct ((Z.of_nat (length (range m next range_end limit)) <? limit) || (next' =? 0)); [discriminate|apply IH].
 Qed.
 
 (* the collecting callback changes neither the storage nor anything else *)
@@ -53,12 +51,12 @@ Proof. induction l as [|x l IH]; cbn; [lia|]. destruct (f x); cbn; lia. Qed.
 Lemma fuel_enough {V} (m : amap V) next limit :
   (length (todo m next) + Z.to_nat (Z.log2 limit) < fuel_for m limit)%nat.
 Proof.
-  unfold fuel_for, todo. pose proof (filter_len_le (in_range next max_id) m). lia.
+  unfold fuel_for, todo. pose proof (filter_len_le (in_range next range_end) m). lia.
 Qed.
 
 (* LoadStores *)
 Theorem load_stores_spec (m : amap Z) : sorted_from 0 m ->
-  load_stores m = (RDone, filter (fun p => fst p <? max_id) m).
+  load_stores m = (RDone, filter (fun p => fst p <? range_end) m).
 Proof.
   intros Hs. unfold load_stores.
   pose proof (page_loop_spec never_fails no_cb store_limit store_limit_pos Jtrue
@@ -78,7 +76,7 @@ Theorem load_regions_collect_spec fails (m : amap rv) : sorted_from 0 m ->
   let res := load_regions fails no_cb m tt in
   fst (fst (fst res)) <> RDiverged /\
   (fst (fst (fst res)) = RDone ->
-     snd (fst (fst res)) = filter (fun p => fst p <? max_id) m /\ snd (fst res) = m) /\
+     snd (fst (fst res)) = filter (fun p => fst p <? range_end) m /\ snd (fst res) = m) /\
   sorted_from 0 (snd (fst res)).
 Proof.
   intros Hs res.
@@ -106,14 +104,14 @@ Section Chain.
       fst (fst (fst (page_loop fails cb min_limit fuel m next limit call c acc))) <> RFailed.
   Proof.
     intros Hfl Hsmall. induction fuel as [|fuel IH]; intros m next limit call c acc Hc; cbn [page_loop]; [discriminate|].
-    destruct (fails call (range m next max_id limit)) eqn:Ef.
+    destruct (fails call (range m next range_end limit)) eqn:Ef.
     - destruct Hc as [|l Hmin Hc].
       + (* at the floor: the page has at most `floor` items, so it cannot have failed *)
         exfalso. rewrite Hsmall in Ef; [discriminate|].
         unfold range. rewrite firstn_length. lia.
       + rewrite (proj2 (Z.leb_le _ _) Hmin). apply IH. exact Hc.
-    - destruct (fold_left (step_item cb) (range m next max_id limit) (m, c, next)) as [[m' c'] next'].
-      destruct (Z.of_nat (length (range m next max_id limit)) <? limit); [discriminate|apply IH; exact Hc].
+    - destruct (fold_left (step_item cb) (range m next range_end limit) (m, c, next)) as [[m' c'] next'].
+      destruct ((Z.of_nat (length (range m next range_end limit)) <? limit) || (next' =? 0)); [discriminate|apply IH; exact Hc].
   Qed.
 End Chain.
 
@@ -145,6 +143,13 @@ Proof.
   induction b as [|[k v] b IH]; intros l Hl Hb; cbn [fold_left]; [exact Hl|].
   destruct Hb as [Hk Hb]. apply IH; [apply put_sorted0; [exact Hl|exact Hk]|].
   eapply sorted_from_weaken; [|exact Hb]. lia.
+Qed.
+
+Lemma filter_sorted {V} (f : Z * V -> bool) : forall (m : amap V) lo, sorted_from lo m -> sorted_from lo (filter f m).
+Proof.
+  induction m as [|[k v] r IH]; intros lo H; cbn [filter]; [exact I|]. destruct H as [H1 H2].
+  destruct (f (k, v)); [split; [exact H1|apply IH; exact H2]|].
+  eapply sorted_from_weaken; [|apply IH; exact H2]. lia.
 Qed.
 
 Lemma inv_flush s : SInv s -> SInv (flush_batch s).
@@ -207,7 +212,9 @@ Proof.
       * constructor; cbn; try assumption. apply put_sorted0; [assumption|lia].
       * apply inv_flush. constructor; cbn; try assumption. apply put_sorted0; [assumption|lia].
     + constructor; cbn; try assumption. apply put_sorted0; [assumption|lia].
-  - cbn [fst]. apply inv_set_regions; [exact I|]. apply del_sorted. unfold regions_of. destruct (use_rs s); assumption.
+  - destruct (use_rs s); cbn [fst].
+    + constructor; cbn; try assumption; apply del_sorted; assumption.
+    + apply inv_set_regions; [exact I|]. apply del_sorted. assumption.
   - apply inv_flush. exact I.
   - constructor; cbn; assumption.
   - constructor; cbn; try assumption; try exact Logic.I.
@@ -223,7 +230,10 @@ Proof.
     assert (Hs : sorted_from 0 (regions_of s (use_rs s))) by (unfold regions_of; destruct (use_rs s); assumption).
     specialize (P Hs).
     destruct (load_regions (faults_of s (use_rs s)) check_and_put (regions_of s (use_rs s)) []) as [[[st acc] m'] c'].
-    cbn [fst snd] in *. apply inv_set_regions; assumption.
+    cbn [fst snd] in *. pose proof (inv_set_regions s (use_rs s) m' I P) as [S1 S2 S3 S4 S5 S6].
+    destruct (use_rs s); [|constructor; assumption].
+    constructor; cbn [stores lweight rweight base_r ldb batch]; try assumption.
+    apply filter_sorted. exact S6.
 Qed.
 
 Lemma inv_init : SInv sinit.
@@ -263,7 +273,7 @@ Proof.
   intros H. destruct o; try contradiction; cbn [run_op].
   - destruct (load_stores (stores s)); reflexivity.
   - destruct (use_rs s); [destruct (cache_size s <? batch_size - 1)|]; reflexivity.
-  - cbn [fst]. apply set_regions_frame.
+  - destruct (use_rs s); [reflexivity|cbn [fst]; apply set_regions_frame].
   - reflexivity.
   - reflexivity.
   - reflexivity.
@@ -273,7 +283,8 @@ Proof.
   - destruct (use_rs s); [|apply collect_frame]. destruct (loaded_once s); [reflexivity|].
     pose proof (collect_frame s) as F. destruct (collect_regions s) as [s' b]. cbn [fst] in *.
     destruct b as [| |st l| |]; try exact F. destruct st; exact F.
-  - destruct (load_regions _ _ _ _) as [[[st acc] m'] c']. cbn [fst]. apply set_regions_frame.
+  - destruct (load_regions _ _ _ _) as [[[st acc] m'] c']. cbn [fst].
+    pose proof (set_regions_frame s (use_rs s) m') as F. destruct (use_rs s); exact F.
 Qed.
 
 Lemma stores_follow ops : forall s f fl fr, SInv s -> ops_ok ops ->
@@ -305,7 +316,7 @@ Definition decorate (s : sstate) (it : Z * Z) : Z * Z * Z * Z :=
   (fst it, snd it, weight_of (lweight s) (fst it), weight_of (rweight s) (fst it)).
 
 Theorem load_stores_obs s : SInv s ->
-  snd (run_op s OLoadStores) = BStores RDone (map (decorate s) (filter (fun p => fst p <? max_id) (stores s))).
+  snd (run_op s OLoadStores) = BStores RDone (map (decorate s) (filter (fun p => fst p <? range_end) (stores s))).
 Proof. intros I. cbn [run_op]. rewrite load_stores_spec by (apply (i_stores s I)). reflexivity. Qed.
 
 Definition no_want : Z -> option Z := fun _ => None.
@@ -344,12 +355,12 @@ Lemma no_cb_keeps_map {V} (fails : nat -> amap V -> bool) min_limit : forall fue
   snd (fst (page_loop fails no_cb min_limit fuel m next limit call tt acc)) = m.
 Proof.
   induction fuel as [|fuel IH]; intros m next limit call acc; cbn [page_loop]; [reflexivity|].
-  destruct (fails call (range m next max_id limit)).
+  destruct (fails call (range m next range_end limit)).
   - destruct (min_limit <=? limit / 2); [apply IH|reflexivity].
-  - pose proof (no_cb_fold (range m next max_id limit) m next) as F.
-    destruct (fold_left (step_item no_cb) (range m next max_id limit) (m, tt, next)) as [[m' c'] next'].
+  - pose proof (no_cb_fold (range m next range_end limit) m next) as F.
+    destruct (fold_left (step_item no_cb) (range m next range_end limit) (m, tt, next)) as [[m' c'] next'].
     cbn [fst] in F. inversion F; subst m' c'.
-    destruct (Z.of_nat (length (range m next max_id limit)) <? limit); [reflexivity|apply IH].
+    destruct ((Z.of_nat (length (range m next range_end limit)) <? limit) || (next' =? 0)); [reflexivity|apply IH].
 Qed.
 
 Lemma collect_keeps_regions s :
@@ -402,7 +413,7 @@ Proof.
 Qed.
 
 Theorem direct_load_obs s : SInv s -> use_rs s = false -> budget s = None ->
-  snd (run_op s OLoadRegions) = BRegions RDone (filter (fun p => fst p <? max_id) (base_r s)).
+  snd (run_op s OLoadRegions) = BRegions RDone (filter (fun p => fst p <? range_end) (base_r s)).
 Proof.
   intros I Hrs Hb. cbn [run_op]. unfold collect_regions. rewrite Hrs. cbn [faults_of regions_of].
   rewrite Hb. change (over_budget None) with (@never_fails rv).
@@ -417,9 +428,9 @@ Qed.
    every page of at most 156 items (the end of the limit chain 10000, 5000, ..., 156) fits the budget *)
 Theorem direct_load_budget_obs s : SInv s -> use_rs s = false ->
   (exists st l, snd (run_op s OLoadRegions) = BRegions st l /\ st <> RDiverged /\
-                (st = RDone -> l = filter (fun p => fst p <? max_id) (base_r s))) /\
+                (st = RDone -> l = filter (fun p => fst p <? range_end) (base_r s))) /\
   ((forall page, Z.of_nat (length page) <= 156 -> over_budget (budget s) O page = false) ->
-   snd (run_op s OLoadRegions) = BRegions RDone (filter (fun p => fst p <? max_id) (base_r s))).
+   snd (run_op s OLoadRegions) = BRegions RDone (filter (fun p => fst p <? range_end) (base_r s))).
 Proof.
   intros I Hrs. cbn [run_op]. unfold collect_regions. rewrite Hrs. cbn [faults_of regions_of].
   pose proof (load_regions_collect_spec (over_budget (budget s)) (base_r s) (i_base s I)) as P. cbv zeta in P.
@@ -461,14 +472,13 @@ Proof.
   apply (lookup_flush_fold (batch s) 0 (ldb s) (i_ldb s I) (i_batch s I)). lia.
 Qed.
 
-Definition delete_is_safe (s : sstate) (o : op) : Prop :=
-  match o with ODeleteRegion id => lookup (batch s) id = None | _ => True end.
-
-Lemma rs_step s o f : SInv s -> op_ok o -> plain_op o = true -> use_rs s = true -> delete_is_safe s o ->
+(* every operation of a plain history keeps `leveldb overlaid by the batch` equal to what the history asks for;
+   DeleteRegion removes the id from both (RegionStorage.Remove, e76651c) *)
+Lemma rs_step s o f : SInv s -> op_ok o -> plain_op o = true -> use_rs s = true ->
   (forall id, overlay s id = f id) ->
   use_rs (fst (run_op s o)) = true /\ forall id, overlay (fst (run_op s o)) id = region_want f o id.
 Proof.
-  intros I Ho Hp Hrs Hsafe Hf. pose proof I as [_ _ _ _ H5 H6].
+  intros I Ho Hp Hrs Hf. pose proof I as [_ _ _ _ H5 H6].
   destruct (collect_keeps_regions s) as (_ & C2 & C3 & _ & C5).
   destruct o; try discriminate; cbn [run_op region_want]; rewrite ?Hrs; cbn [fst].
   - split; [first [exact Hrs|reflexivity]|exact Hf].
@@ -486,12 +496,11 @@ Proof.
       rewrite overlay_flush.
       * unfold overlay, fupd. cbn [batch ldb]. rewrite Hput. destruct (j =? id); [reflexivity|apply Hf].
       * constructor; cbn; try apply I. apply put_sorted0; [exact H6|lia].
-  - (* DeleteRegion: leveldb only *)
-    cbn [delete_is_safe] in Hsafe. unfold set_regions, regions_of. rewrite Hrs. split; [first [exact Hrs|reflexivity]|].
-    intros j. unfold overlay, fupd. cbn [batch ldb]. rewrite (lookup_del 0) by exact H5.
-    destruct (j =? id) eqn:E.
-    + apply Z.eqb_eq in E; subst j. rewrite Hsafe. reflexivity.
-    + apply Hf.
+  - (* DeleteRegion: the pending entry and the leveldb entry *)
+    split; [first [exact Hrs|reflexivity]|].
+    intros j. unfold overlay, fupd. cbn [batch ldb].
+    rewrite (lookup_del 0) by exact H6. rewrite (lookup_del 0) by exact H5.
+    destruct (j =? id) eqn:E; [reflexivity|apply Hf].
   - split; [first [exact Hrs|reflexivity]|]. intros j. rewrite overlay_flush by exact I. apply Hf.
   - split; [first [exact Hrs|reflexivity]|]. intros j. rewrite <- (Hf j), <- (overlay_flush s I j). reflexivity.
   - split; [first [exact Hrs|reflexivity]|exact Hf].
@@ -503,39 +512,21 @@ Proof.
     destruct b as [| |st l| |]; try exact G. destruct st; exact G.
 Qed.
 
-Fixpoint safe_deletes (s : sstate) (ops : list op) : Prop :=
-  match ops with [] => True | o :: r => delete_is_safe s o /\ safe_deletes (fst (run_op s o)) r end.
-
 Lemma rs_follow ops : forall s f, SInv s -> ops_ok ops -> plain_ops ops = true -> use_rs s = true ->
-  safe_deletes s ops -> (forall id, overlay s id = f id) ->
+  (forall id, overlay s id = f id) ->
   let s' := run_state run_op s ops in
   use_rs s' = true /\ SInv s' /\ forall id, overlay s' id = fold_left region_want ops f id.
 Proof.
-  induction ops as [|o ops IH]; intros s f I Hok Hp Hrs Hsafe Hf; cbn [run_state fold_left]; [auto|].
+  induction ops as [|o ops IH]; intros s f I Hok Hp Hrs Hf; cbn [run_state fold_left]; [auto|].
   destruct Hok as [Ho Hok]. cbn [plain_ops forallb] in Hp. apply andb_true_iff in Hp as [Hpo Hp].
-  destruct Hsafe as [Hs1 Hs2]. destruct (rs_step s o f I Ho Hpo Hrs Hs1 Hf) as [R1 R2].
-  apply IH; [apply inv_step; assumption|exact Hok|exact Hp|exact R1|exact Hs2|exact R2].
+  destruct (rs_step s o f I Ho Hpo Hrs Hf) as [R1 R2].
+  apply IH; [apply inv_step; assumption|exact Hok|exact Hp|exact R1|exact R2].
 Qed.
 
 Definition srs : sstate := fst (run_op sinit (OSwitch true)).
 
-(* once Flush has returned, leveldb holds exactly what the history saved and did not delete *)
-Theorem flush_makes_durable_pf ops : ops_ok ops -> plain_ops ops = true -> safe_deletes srs ops ->
-  let s := run_state run_op srs (ops ++ [OFlush]) in
-  batch s = [] /\ SInv s /\ use_rs s = true /\
-  forall id, lookup (ldb s) id = fold_left region_want ops no_rwant id.
-Proof.
-  intros Hok Hp Hsafe s.
-  assert (I0 : SInv srs) by (constructor; exact I).
-  destruct (rs_follow ops srs no_rwant I0 Hok Hp eq_refl Hsafe (fun id => eq_refl)) as (R1 & R2 & R3).
-  assert (Es : s = flush_batch (run_state run_op srs ops)).
-  { unfold s. clear. generalize srs. induction ops as [|o ops IH]; intros s0; cbn [app run_state]; [reflexivity|apply IH]. }
-  rewrite Es. split; [reflexivity|]. split; [apply inv_flush; exact R2|]. split; [exact R1|].
-  intros id. rewrite <- R3, <- (overlay_flush _ R2 id). unfold overlay. reflexivity.
-Qed.
-
 Theorem rs_load_obs s : SInv s -> use_rs s = true ->
-  snd (run_op s OLoadRegions) = BRegions RDone (filter (fun p => fst p <? max_id) (ldb s)).
+  snd (run_op s OLoadRegions) = BRegions RDone (filter (fun p => fst p <? range_end) (ldb s)).
 Proof.
   intros I Hrs. cbn [run_op]. unfold collect_regions. rewrite Hrs. cbn [faults_of regions_of].
   pose proof (load_regions_collect_spec never_fails (ldb s) (i_ldb s I)) as P. cbv zeta in P.
@@ -550,83 +541,95 @@ Theorem crash_keeps_flushed s : ldb (fst (run_op s OCrash)) = ldb s /\ batch (fs
                                 base_r (fst (run_op s OCrash)) = base_r s.
 Proof. repeat split. Qed.
 
-Theorem load_stores_pf :
-  forall ops, ops_ok ops ->
-    let s := run_state run_op sinit ops in
-    (forall id, lookup (stores s) id = fold_left store_want ops no_want id) /\
-    (forall id, lookup (lweight s) id = fold_left lw_want ops no_want id) /\
-    (forall id, lookup (rweight s) id = fold_left rw_want ops no_want id) /\
-    sorted_from 0 (stores s) /\
-    snd (run_op s OLoadStores) = BStores RDone (map (decorate s) (filter (fun p => fst p <? max_id) (stores s))).
+(* ---------- ids that a valid history leaves behind are uint64 ---------- *)
+Lemma store_want_bound ops : forall f, ops_ok ops -> (forall k v, f k = Some v -> k < two64) ->
+  forall k v, fold_left store_want ops f k = Some v -> k < two64.
 Proof.
-  intros ops Hok s. destruct (stores_are_what_history_left ops Hok) as (I & A & B & C).
-  fold s in I, A, B, C. split; [exact A|]. split; [exact B|]. split; [exact C|].
-  split; [apply (i_stores s I)|apply load_stores_obs; exact I].
+  induction ops as [|o r IH]; intros f Ho Hf k0 v0 E; cbn [fold_left] in E; [exact (Hf _ _ E)|].
+  destruct Ho as [Ho Hr]. apply (IH (store_want f o) Hr) with (v := v0); [|exact E].
+  intros k1 v1 E1. destruct o; cbn [store_want] in E1; try exact (Hf _ _ E1); unfold fupd in E1;
+    destruct (k1 =? id) eqn:Ek; try exact (Hf _ _ E1); try discriminate; apply Z.eqb_eq in Ek; subst; unfold op_ok in Ho; lia.
+Qed.
+Lemma region_want_bound ops : forall f, ops_ok ops -> (forall k v, f k = Some v -> k < two64) ->
+  forall k v, fold_left region_want ops f k = Some v -> k < two64.
+Proof.
+  induction ops as [|o r IH]; intros f Ho Hf k0 v0 E; cbn [fold_left] in E; [exact (Hf _ _ E)|].
+  destruct Ho as [Ho Hr]. apply (IH (region_want f o) Hr) with (v := v0); [|exact E].
+  intros k1 v1 E1. destruct o; cbn [region_want] in E1; try exact (Hf _ _ E1); unfold fupd in E1;
+    destruct (k1 =? id) eqn:Ek; try exact (Hf _ _ E1); try discriminate; apply Z.eqb_eq in Ek; subst; unfold op_ok in Ho; lia.
 Qed.
 
-Theorem load_returns_each_saved_once_partial_pf :
+Lemma all_pass {V} (m : amap V) (f : Z -> option V) : sorted_from 0 m -> (forall id, lookup m id = f id) ->
+  (forall k v, f k = Some v -> k < two64) -> filter (fun p => fst p <? range_end) m = m.
+Proof.
+  intros Hs Hl Hb. apply filter_all_below. intros k v Hin. apply (in_lookup m 0 k v Hs) in Hin.
+  rewrite Hl in Hin. exact (Hb k v Hin).
+Qed.
+
+(* ---------- the statements of props/C17.v ---------- *)
+(* stores: after any history LoadStores returns every store saved and not deleted, exactly once, in id order, with
+   the weights last saved (default 1.0) *)
+Theorem load_returns_each_saved_once_pf :
   forall ops, ops_ok ops ->
     let s := run_state run_op sinit ops in
-    (forall p, fold_left store_want ops no_want max_id <> Some p) ->
     snd (run_op s OLoadStores) = BStores RDone (map (decorate s) (stores s)) /\
     sorted_from 0 (stores s) /\
+    (forall id, lookup (lweight s) id = fold_left lw_want ops no_want id) /\
+    (forall id, lookup (rweight s) id = fold_left rw_want ops no_want id) /\
     forall id p, fold_left store_want ops no_want id = Some p <->
                  In (id, p, weight_of (lweight s) id, weight_of (rweight s) id) (map (decorate s) (stores s)).
 Proof.
-  intros ops Hok s Hmax. destruct (stores_are_what_history_left ops Hok) as (I & A & _ & _). fold s in I, A.
+  intros ops Hok s. destruct (stores_are_what_history_left ops Hok) as (I & A & B & C). fold s in I, A, B, C.
   pose proof (i_stores s I) as Hs.
-  assert (Hall : filter (fun p => fst p <? max_id) (stores s) = stores s).
-  { assert (G : forall (m : amap Z) lo, sorted_from lo m -> 0 <= lo ->
-                  (forall k v, In (k, v) m -> k <> max_id) -> (forall k v, In (k, v) m -> k < two64 \/ True) ->
-                  True) by auto. clear G.
-    assert (Hne : forall k v, In (k, v) (stores s) -> k <> max_id).
-    { intros k v Hin Ek. subst k. apply (in_lookup _ 0 _ _ Hs) in Hin. rewrite A in Hin. exact (Hmax v Hin). }
-    assert (Hlt : forall k v, In (k, v) (stores s) -> k < two64).
-    { intros k v Hin. apply (in_lookup _ 0 _ _ Hs) in Hin. rewrite A in Hin.
-      (* a key present after the history was put by an OSaveStore with a valid id *)
-      clear - Hin Hok.
-      assert (G : forall ops f, ops_ok ops -> (forall k v, f k = Some v -> k < two64) ->
-                    forall k v, fold_left store_want ops f k = Some v -> k < two64).
-      { induction ops0 as [|o r IH]; intros f Ho Hf k0 v0 E; cbn [fold_left] in E; [exact (Hf _ _ E)|].
-        destruct Ho as [Ho Hr]. apply (IH (store_want f o) Hr) with (v := v0); [|exact E].
-        intros k1 v1 E1. destruct o; cbn [store_want] in E1; try exact (Hf _ _ E1); unfold fupd in E1;
-          destruct (k1 =? id) eqn:Ek; try exact (Hf _ _ E1); try discriminate; apply Z.eqb_eq in Ek; subst; unfold op_ok in Ho; lia. }
-      apply (G ops no_want Hok) with (v := v); [intros k0 v0 E0; discriminate|exact Hin]. }
-    apply filter_all_below; assumption. }
+  assert (Hall : filter (fun p => fst p <? range_end) (stores s) = stores s).
+  { apply (all_pass (stores s) _ Hs A). apply (store_want_bound ops no_want Hok). intros k v E; discriminate. }
   split; [rewrite load_stores_obs by exact I; rewrite Hall; reflexivity|]. split; [exact Hs|].
+  split; [exact B|]. split; [exact C|].
   intros id p. rewrite <- A, <- (in_lookup _ 0 _ _ Hs). split.
   - intros Hin. apply in_map_iff. exists (id, p). split; [reflexivity|exact Hin].
   - intros Hin. apply in_map_iff in Hin as ([k v] & E & Hin). unfold decorate in E. cbn [fst snd] in E.
     inversion E; subst. exact Hin.
 Qed.
 
+(* regions, direct backend, any byte budget *)
 Theorem load_regions_direct_pf :
   forall ops, ops_ok ops -> plain_ops ops = true ->
     let s := run_state run_op sinit ops in
     (forall id, lookup (base_r s) id = fold_left region_want ops no_rwant id) /\
     sorted_from 0 (base_r s) /\
-    (* whatever the byte budget: no endless loop, and a load that finishes is complete *)
-    (exists st l, snd (run_op s OLoadRegions) = BRegions st l /\ st <> RDiverged /\
-                  (st = RDone -> l = filter (fun p => fst p <? max_id) (base_r s))) /\
-    (* and it does finish when every page of at most 156 items fits the budget (in particular without a budget) *)
+    (exists st l, snd (run_op s OLoadRegions) = BRegions st l /\ st <> RDiverged /\ (st = RDone -> l = base_r s)) /\
     ((forall page, Z.of_nat (length page) <= 156 -> over_budget (budget s) O page = false) ->
-     snd (run_op s OLoadRegions) = BRegions RDone (filter (fun p => fst p <? max_id) (base_r s))).
+     snd (run_op s OLoadRegions) = BRegions RDone (base_r s)).
 Proof.
   intros ops Hok Hp s.
   pose proof (inv_run ops sinit inv_init Hok) as I. fold s in I.
   destruct (direct_follow ops sinit no_rwant inv_init Hok Hp eq_refl (fun id => eq_refl)) as [D1 D2]. fold s in D1, D2.
-  destruct (direct_load_budget_obs s I D1) as [B1 B2].
+  assert (Hall : filter (fun p => fst p <? range_end) (base_r s) = base_r s).
+  { apply (all_pass (base_r s) _ (i_base s I) D2). apply (region_want_bound ops no_rwant Hok). intros k v E; discriminate. }
+  destruct (direct_load_budget_obs s I D1) as [B1 B2]. rewrite Hall in B1, B2.
   split; [exact D2|]. split; [apply (i_base s I)|]. split; [exact B1|exact B2].
 Qed.
 
-Theorem flush_makes_durable_partial_pf :
-  forall ops, ops_ok ops -> plain_ops ops = true -> safe_deletes srs ops ->
+(* regions, RegionStorage backend: once Flush has returned, leveldb holds exactly what the history saved and did not
+   delete, and a load returns it *)
+Theorem flush_makes_durable_pf :
+  forall ops, ops_ok ops -> plain_ops ops = true ->
     let s := run_state run_op srs (ops ++ [OFlush]) in
     batch s = [] /\
     (forall id, lookup (ldb s) id = fold_left region_want ops no_rwant id) /\
     sorted_from 0 (ldb s) /\
-    snd (run_op s OLoadRegions) = BRegions RDone (filter (fun p => fst p <? max_id) (ldb s)).
+    snd (run_op s OLoadRegions) = BRegions RDone (ldb s).
 Proof.
-  intros ops Hok Hp Hsafe s. destruct (flush_makes_durable_pf ops Hok Hp Hsafe) as (B & I & R & L). fold s in B, I, R, L.
-  split; [exact B|]. split; [exact L|]. split; [apply (i_ldb s I)|apply rs_load_obs; assumption].
+  intros ops Hok Hp s.
+  assert (I0 : SInv srs) by (constructor; exact I).
+  destruct (rs_follow ops srs no_rwant I0 Hok Hp eq_refl (fun id => eq_refl)) as (R1 & R2 & R3).
+  assert (Es : s = flush_batch (run_state run_op srs ops)).
+  { unfold s. clear. generalize srs. induction ops as [|o ops IH]; intros s0; cbn [app run_state]; [reflexivity|apply IH]. }
+  assert (L : forall id, lookup (ldb s) id = fold_left region_want ops no_rwant id).
+  { intros id. rewrite Es, <- R3, <- (overlay_flush _ R2 id). unfold overlay. reflexivity. }
+  assert (Is : SInv s) by (rewrite Es; apply inv_flush; exact R2).
+  assert (Rs : use_rs s = true) by (rewrite Es; exact R1).
+  split; [rewrite Es; reflexivity|]. split; [exact L|]. split; [apply (i_ldb s Is)|].
+  rewrite (rs_load_obs s Is Rs). f_equal.
+  apply (all_pass (ldb s) _ (i_ldb s Is) L). apply (region_want_bound ops no_rwant Hok). intros k v E; discriminate.
 Qed.
